@@ -1,6 +1,7 @@
 // C06 driver: executes one operation per input line against the GENERATED C API (wrap*.h), prints one line per operation.
 #include <cstdio>
 #include <cstring>
+#include <cstdlib>
 #include <vector>
 #include <string>
 #include "cap.hpp"
@@ -28,6 +29,7 @@ int main() {
       if (a == 1) { CAP_Obj c; if (b % 3 == 0) CAP_Obj_ctor_0(&c); else if (b % 3 == 1) CAP_Obj_ctor_1(b, &c); else CAP_make(b, &c); h.cap.addr = c.addr; h.cap.idtor = c.idtor; }
       else if (a == 2) { CAP_Other c; if (b % 2) CAP_Other_ctor(&c); else CAP_make_other(&c); h.cap.addr = c.addr; h.cap.idtor = c.idtor; }
       else if (a == 3) { CAP_newints_bufferify(&h.arr, 3 + b % 4); }
+      else if (a == 5) { h.type = 1; CAP_Obj c; CAP_acquire(b, &c); h.cap.addr = c.addr; h.cap.idtor = c.idtor; }
       else { CAP_Obj t; CAP_borrow(1, &t); CAP_name_bufferify(&t, &h.arr); }
       hs.push_back(h);
     } else if (!std::strcmp(cmd, "borrow")) {   // a: pool index ; b: 0 object, 1 array
@@ -41,6 +43,7 @@ int main() {
       else if (h.type == 2) { CAP_Other c; c.addr = h.cap.addr; c.idtor = h.cap.idtor; val = CAP_Other_get(&c); }
       else if (h.type == 3) { val = ((int *)h.arr.cxx.addr)[0]; }
       else { val = ((volatile unsigned char *)h.arr.cxx.addr)[8] >= 0; }   // a read inside the std::string object (instrumented here; libstdc++ is not)
+      if ((h.type == 1 || h.type == 2) && val == -777) { std::fflush(stdout); std::abort(); }   // the object says it has been released
     } else if (!std::strcmp(cmd, "dtor")) {
       H &h = hs.at(a);
       if (h.type == 1) { CAP_Obj c; c.addr = h.cap.addr; c.idtor = h.cap.idtor; CAP_Obj_delete(&c); h.cap.addr = c.addr; h.cap.idtor = c.idtor; }
@@ -62,5 +65,6 @@ int main() {
   }
   std::printf("final obj_live=%d other_live=%d ints_live=%d obj_made=%d other_made=%d ints_made=%d\n",
               counters.obj_live - base_live, counters.other_live, counters.ints_live, counters.obj_made, counters.other_made, counters.ints_made);
+  std::printf("pool in_use=%d\n", counters.pool_in_use);
   return 0;
 }
